@@ -160,6 +160,16 @@ def run(rep, drv):
 	rep.rule = ('random horizons T<=%d, integer/quarter-valued h,K,c,d (zero later demands allowed, d_1>0), all five '
 				'parameter shapes mixed per argument; non-trivial = T>=2 and canonical input distinct; every case is '
 				'compared exactly with the Lean model AND checked by full enumeration of 2^(T-1) plans' % Tmax)
+	# corpus first: all fixed costs zero with a purchase cost that rises faster than the holding cost (buying ahead beats lot-for-lot),
+	# falling purchase costs, a zero-demand tail
+	for cz in ({'T': 4, 'h': '1', 'K': '0', 'd': ['5', '7', '3', '6'], 'c': ['1', '3', '6', '10']},
+			   {'T': 3, 'h': ['1/4', '1/4', '1/4'], 'K': ['0', '0', '0'], 'd': ['4', '4', '4'], 'c': ['0', '2', '5']},
+			   {'T': 4, 'h': '2', 'K': '0', 'd': ['5', '0', '3', '0'], 'c': ['9', '4', '2', '1']},
+			   {'T': 5, 'h': '1', 'K': ['0', '30', '0', '30', '0'], 'd': ['6', '2', '8', '1', '4'], 'c': '1'}):
+		py, m = one_case(rep, drv, cz)
+		rep.case('ww-exact', cz, nontrivial=True); rep.count('ww:corpus-case')
+		nz = lambda v: [Fraction(x) for x in v] if isinstance(v, list) else [Fraction(v)] * cz['T']
+		compare(rep, 'ww-exact', cz, py, m, True, (nz(cz['h']), nz(cz['K']), nz(cz['c']), nz(cz['d'])))
 	for i in range(n):
 		T = rng.randint(1, Tmax) if i > 20 else rng.randint(1, 3)
 		kind = rng.choice(['int', 'quarter'])
